@@ -237,10 +237,14 @@ func ConstText(t *Tables, k *Const, blockName func(fn string, b int) string) str
 		case "arr":
 			return "[" + strings.Join(xs, ", ") + "]"
 		}
-		if len(xs) == 0 {
-			return "{}"
+		body := "{}"
+		if len(xs) > 0 {
+			body = "{ " + strings.Join(xs, ", ") + " }"
 		}
-		return "{ " + strings.Join(xs, ", ") + " }"
+		if k.Ty != nil && (k.Ty.PK || (k.Ty.K == "named" && k.Ty.Body.PK)) {
+			return "<" + body + ">"
+		}
+		return body
 	case "chars":
 		return "c" + quoteLLVM(k.V.(string))
 	case "gref":
@@ -339,6 +343,7 @@ func collectNamed(t *Type, seen map[string]bool, out *[]*Type) {
 	if t.K == "named" {
 		if !seen[t.Nm] {
 			seen[t.Nm] = true
+			collectNamed(t.Body, seen, out) // named types inside the body
 			*out = append(*out, t)
 		}
 		return
